@@ -149,8 +149,10 @@ package flamego
 
 // Callback model: invoking a handler lets it act on the context through the public API only.
 //@ model handlerCallback(c *context, f Handler) (vals []reflect.Value, err error)
-//@   modifies c.index, c.started, c.responseWriter.isWritten
+// (a handler may also replace the request, e.g. c.Request().Request = c.Request().WithContext(ctx))
+//@   modifies c.index, c.started, c.responseWriter.isWritten, c.request.Request
 //@   ensures ctxStep(old(ctxAligned(c)), old(c.started), old(c.responseWriter.isWritten), ctxAligned(c), c.started, c.responseWriter.isWritten)
+//@   ensures c.request.Request != nil
 
 //@ functype ReturnHandler(c, vals)
 //@   modifies c.(*context).responseWriter.isWritten
@@ -161,10 +163,12 @@ package flamego
 //@   skip typeassert nil@call:handleReturn
 //@   call Invoke#0 as handlerCallback(c, h)
 //@   requires ctxInv(c)
-//@   modifies c.index, c.started, c.responseWriter.isWritten
+//@   modifies c.index, c.started, c.responseWriter.isWritten, c.request.Request
 //@   panics true
 //@   assert before Invoke#0: c.started <= len(c.handlers) && h == chainSlot(c, c.started)
 //@   assert before Invoke#0: lastselect() != 0
+// the cancellation that was polled is that of the request's CURRENT context (a handler may have replaced it)
+//@   assert before Invoke#0: lastselectchan() == reqDone(c.request.Request)
 //@   ghost before Invoke#0: c.started = c.started + 1
 //@   assert[C14] before handleReturn#0: handleReturn == rvIface(ev).(ReturnHandler) && ev == injValue(c.Injector, reflect.TypeOf(iface(type(ReturnHandler), nil)))
 //@   ensures ctxInv(c)
@@ -181,7 +185,7 @@ package flamego
 //@ func (*context).Next
 //@   props C03 C05
 //@   requires ctxInv(c)
-//@   modifies c.index, c.started, c.responseWriter.isWritten
+//@   modifies c.index, c.started, c.responseWriter.isWritten, c.request.Request
 //@   panics true
 //@   ensures ctxInv(c)
 //@   ensures ctxStep(old(ctxAligned(c)), old(c.started), old(c.responseWriter.isWritten), ctxAligned(c), c.started, c.responseWriter.isWritten)
@@ -203,7 +207,7 @@ package flamego
 //@   ensures ctxInv(result.(*context))
 //@   ensures result.(*context).handlers == handlers && result.(*context).action == nil
 //@   ensures result.(*context).index == 0 && result.(*context).started == 0
-//@   ensures fresh(result.(*context).Injector) && fresh(result.(*context).responseWriter)
+//@   ensures fresh(result.(*context).Injector) && fresh(result.(*context).responseWriter) && fresh(result.(*context).request)
 
 //@ func (*Flame).createContext
 //@   props C03 C05 C07
@@ -216,7 +220,7 @@ package flamego
 //@   ensures len(result.(*context).handlers) == len(f.handlers) + len(handlers)
 //@   ensures forall k int :: 0 <= k && k < len(f.handlers) ==> result.(*context).handlers[k] == f.handlers[k]
 //@   ensures forall k int :: 0 <= k && k < len(handlers) ==> result.(*context).handlers[len(f.handlers) + k] == handlers[k]
-//@   ensures fresh(result.(*context).handlers) && fresh(result.(*context).responseWriter)
+//@   ensures fresh(result.(*context).handlers) && fresh(result.(*context).responseWriter) && fresh(result.(*context).request)
 
 // ---------------------------------------------------------------------------
 // C07 / C03: one chain per request
@@ -226,7 +230,7 @@ package flamego
 
 //@ functype contextCreator(w, r, params, handlers, urlPath) c
 //@   requires w != nil && r != nil && handlersNonNil(handlers)
-//@   ensures c != nil && dyn(c) == type(*context) && fresh(c) && ctxInv(c.(*context))
+//@   ensures c != nil && dyn(c) == type(*context) && fresh(c) && ctxInv(c.(*context)) && fresh(c.(*context).request)
 //@   ensures c.(*context).index == 0 && c.(*context).started == 0 && fresh(c.(*context).responseWriter)
 
 // The handler stored in a route leaf / the not-found handler: runs exactly one chain for the request.
